@@ -981,6 +981,13 @@ class IndModel(SModel):
             b = deref_all(args[1])
             if isinstance(b, Obj) and b.kind in ('dyniter', 'dynzip'):
                 return Obj('dynzip', tree=('zip', a0, b))
+        if name == 'std::iter::Iterator::try_for_each' and isinstance(a0, Obj) and a0.kind in ('dyniter', 'dynzip'):
+            # one inductive step: std's try_for_each stops at the first Err / None and returns it, otherwise goes on and returns Ok(())
+            self.loop_form = True
+            r = deref_all(self.interp.apply(args[1], [_dyn_elem(a0)], e))
+            if not (isinstance(r, Enum) and r.adt == 'std::result::Result'):
+                raise Unsupported("try_for_each over the lanes with a step that returns %r" % (r,), e)
+            return r
         if last == 'fold_while' and isinstance(a0, Obj) and a0.kind == 'zip':
             parts = a0.d['parts']
             subs = []
